@@ -2,6 +2,7 @@
 // C15 (messages round-trip through the wire codec, across protocol versions), observed on a real
 // Node that receives frames from a scripted peer over the simulated TCP.
 #include "worlds/net_common.hpp"
+#include "worlds/ref_crypto.hpp"
 
 #include <algorithm>
 
@@ -44,7 +45,59 @@ Plan gen_c13(sk::Rng& r, Tier) {
         op.a = {kind, static_cast<std::int64_t>(r.below(100000)), r.range(1, 40), static_cast<std::int64_t>(r.below(8))};
         p.ops.push_back(op);
     }
+    // direct calls of the signed codec with keys of every length (the session layer only ever produces 32-byte keys):
+    // key length, position of the byte in which the "different key" differs, message variant
+    const int napi = static_cast<int>(r.range(1, 3));
+    for (int i = 0; i < napi; ++i) {
+        Op op;
+        op.k = "api";
+        op.a = {r.chance(1, 3) ? r.pick<std::int64_t>({0, 1, 31, 32, 33, 63, 64, 65, 128}) : r.range(0, 130), static_cast<std::int64_t>(r.below(1000)), static_cast<std::int64_t>(r.below(1u << 30)), static_cast<std::int64_t>(r.below(4))};
+        p.ops.insert(p.ops.begin() + static_cast<long>(r.below(p.ops.size() + 1)), op);
+    }
     return p;
+}
+
+// One direct round through encode_signed/decode_signed with a key of arbitrary length.
+void api_round(const Op& op, Ctx& ctx) {
+    sk::Rng g(static_cast<std::uint64_t>(op.at(2)) * 2654435761u + 13);
+    std::vector<std::uint8_t> key(static_cast<std::size_t>(op.at(0)));
+    for (auto& b : key) b = static_cast<std::uint8_t>(g.below(256));
+    pr::Message m{};
+    m.version = pr::kCurrentMessageVersion;
+    switch (op.at(3)) {
+        case 0: { m.type = pr::MessageType::Acknowledge; m.payload = pr::AcknowledgePayload{make_id(static_cast<std::uint8_t>(g.below(256)), 0x13), make_id(0x14, static_cast<std::uint8_t>(g.below(256))), g.chance(1, 2)}; break; }
+        case 1: { m.type = pr::MessageType::Request; m.payload = pr::RequestPayload{make_id(static_cast<std::uint8_t>(g.below(256)), 0x15), make_id(0x16, 1)}; break; }
+        case 2: { m.type = pr::MessageType::Chunk; pr::ChunkPayload cp{}; cp.chunk_id = make_id(3, 0x17); cp.data.resize(g.below(700)); for (auto& b : cp.data) b = static_cast<std::uint8_t>(g.below(256)); cp.ttl = seconds(static_cast<std::int64_t>(g.below(5000))); m.payload = cp; break; }
+        default: { m.type = pr::MessageType::HandshakeAck; m.payload = pr::HandshakeAckPayload{true, 4, static_cast<std::uint32_t>(g.below(1u << 31))}; break; }
+    }
+    const auto bytes = pr::encode_signed(m, std::span<const std::uint8_t>(key));
+    ctx.boundary(key.size() > 64 ? "api_key_longer_than_a_block" : key.size() > 32 ? "api_key_33_to_64_bytes" : key.size() == 32 ? "api_key_32_bytes" : "api_key_shorter_than_32_bytes");
+    if (bytes.size() < 32) { ctx.violate("C13.api.no_mac", fmt("encode_signed returned %zu bytes", bytes.size())); return; }
+    const auto want = ref::hmac_sha256(key.data(), key.size(), bytes.data(), bytes.size() - 32);
+    if (!std::equal(want.begin(), want.end(), bytes.end() - 32))
+        ctx.violate("C13.api.mac_is_not_hmac_sha256", fmt("encode_signed under a %zu-byte key appended 32 bytes that are not HMAC-SHA256 of the preceding %zu", key.size(), bytes.size() - 32));
+    if (!pr::decode_signed(std::span<const std::uint8_t>(bytes), std::span<const std::uint8_t>(key)))
+        ctx.violate("C13.api.rejected_under_signing_key", fmt("decode_signed rejects what encode_signed produced under the same %zu-byte key", key.size()));
+    // the same body with the reference MAC must be accepted, too
+    {
+        auto b2 = bytes;
+        std::copy(want.begin(), want.end(), b2.end() - 32);
+        if (!pr::decode_signed(std::span<const std::uint8_t>(b2), std::span<const std::uint8_t>(key)))
+            ctx.violate("C13.api.reference_mac_rejected", fmt("decode_signed rejects a buffer whose last 32 bytes are HMAC-SHA256 of the rest under the %zu-byte key", key.size()));
+    }
+    // different keys: one byte changed (anywhere, also beyond byte 32), cut to 32 bytes, extended by one byte
+    auto different = [&](std::vector<std::uint8_t> k2, const char* how) {
+        if (k2 == key) return;
+        // HMAC pads keys of at most 64 bytes with zeros: a key and the same key followed by zero bytes are the same HMAC key by definition
+        auto strip = [](std::vector<std::uint8_t> k) { if (k.size() <= 64) while (!k.empty() && k.back() == 0) k.pop_back(); return k; };
+        if (strip(k2) == strip(key)) return;
+        if (pr::decode_signed(std::span<const std::uint8_t>(bytes), std::span<const std::uint8_t>(k2)))
+            ctx.violate("C13.api.accepted_under_different_key", fmt("a message signed under a %zu-byte key is accepted under a different key (%s)", key.size(), how));
+    };
+    if (!key.empty()) { auto k2 = key; const std::size_t j = static_cast<std::size_t>(op.at(1)) % key.size(); k2[j] ^= static_cast<std::uint8_t>(1u << (op.at(2) % 8)); different(k2, fmt("byte %zu changed", j).c_str()); }
+    if (!key.empty()) { auto k2 = key; k2.back() ^= 0x01; different(k2, "last byte changed"); }
+    if (key.size() > 32) { auto k2 = key; k2.resize(32); different(k2, "cut to its first 32 bytes"); }
+    { auto k2 = key; k2.push_back(static_cast<std::uint8_t>(1 + g.below(255))); different(k2, "one byte appended"); }
 }
 
 void exec_c13(const Plan& p, Ctx& ctx) {
@@ -70,6 +123,7 @@ void exec_c13(const Plan& p, Ctx& ctx) {
     std::uint64_t seq = 1;
     for (auto& op : p.ops) {
         ++ctx.ops_done;
+        if (op.k == "api") { api_round(op, ctx); continue; }
         if (pristine >= 40 && op.at(0) == 0) continue;  // keep the score above the clamp
         pr::Message m{};
         m.version = pr::kCurrentMessageVersion;
@@ -85,7 +139,18 @@ void exec_c13(const Plan& p, Ctx& ctx) {
         const std::size_t pos = static_cast<std::size_t>(op.at(1)) % len;
         bool is_pristine = false;
         switch (op.at(0)) {
-            case 0: is_pristine = true; break;
+            case 0: {
+                is_pristine = true;
+                // the MAC the codec appended must be HMAC-SHA256 (RFC 2104) of the preceding bytes, by an implementation that shares nothing with the repository's
+                const auto want = ref::hmac_sha256(cn.key.data(), cn.key.size(), bytes.data(), len - 32);
+                if (!std::equal(want.begin(), want.end(), bytes.begin() + static_cast<long>(len - 32)))
+                    ctx.violate("C13.mac_is_not_hmac_sha256", fmt("encode_signed appended 32 bytes that are not HMAC-SHA256 of the %zu preceding bytes under the session key", len - 32));
+                if (op.at(3) % 2) {  // and a frame signed by that implementation must be accepted
+                    std::copy(want.begin(), want.end(), bytes.begin() + static_cast<long>(len - 32));
+                    ctx.boundary("pristine_frame_signed_by_the_reference_hmac");
+                }
+                break;
+            }
             case 1: bytes[pos] ^= static_cast<std::uint8_t>(1u << (op.at(3) % 8)); if (pos >= len - 32) ctx.boundary("bit_flip_inside_mac"); else ctx.boundary("bit_flip_inside_body"); break;
             case 2: bytes.resize(len - static_cast<std::size_t>(std::min<std::int64_t>(op.at(2), static_cast<std::int64_t>(len)))); ctx.boundary("truncated"); break;
             case 3: for (int i = 0; i < op.at(2); ++i) bytes.push_back(static_cast<std::uint8_t>(i * 31 + op.at(3))); ctx.boundary("extended"); break;
@@ -101,7 +166,7 @@ void exec_c13(const Plan& p, Ctx& ctx) {
                 // exact MAC, but over bytes that do not decode (body cut short, then re-signed)
                 auto body = pr::encode(m);
                 body.resize(body.size() - static_cast<std::size_t>(std::min<std::int64_t>(op.at(2), 30)));
-                const auto mac = en::crypto::HmacSha256::compute(std::span<const std::uint8_t>(cn.key), std::span<const std::uint8_t>(body));
+                const auto mac = ref::hmac_sha256(cn.key.data(), cn.key.size(), body.data(), body.size());
                 bytes = body;
                 bytes.insert(bytes.end(), mac.begin(), mac.end());
                 ctx.boundary("valid_mac_over_undecodable_body");
@@ -138,7 +203,7 @@ void exec_c13(const Plan& p, Ctx& ctx) {
             default: {
                 // MAC computed over a proper prefix of the body
                 auto body = pr::encode(m);
-                const auto mac = en::crypto::HmacSha256::compute(std::span<const std::uint8_t>(cn.key), std::span<const std::uint8_t>(body.data(), body.size() - 1));
+                const auto mac = ref::hmac_sha256(cn.key.data(), cn.key.size(), body.data(), body.size() - 1);
                 bytes = body;
                 bytes.insert(bytes.end(), mac.begin(), mac.end());
                 ctx.boundary("mac_over_prefix");
@@ -183,7 +248,7 @@ Scenario make_c13() {
     s.real_components = {"Node (handle_transport_message, handle_acknowledge)", "SessionManager receive_loop", "Message::decode_signed", "HmacSha256::verify", "ReputationManager"};
     s.stub_components = {"OS: threads -> fibers, sockets -> simulated TCP, clock, entropy", "damage is applied to the signed plaintext before transport encryption (equivalent to in-flight damage under a stream cipher)"};
     s.assumptions = {"acceptance is observed through the reputation score; at most 40 pristine frames per run so that the score stays above its clamp"};
-    s.rule = "plan = network knobs + 4..36 frames, each pristine or damaged (bit flip anywhere incl. the MAC, truncation, extension, byte swap, the MAC's own bytes rearranged so that XOR/sum folds over 8/16/32/64-bit words are preserved, another peer's key, a key one bit off, exact MAC over undecodable bytes, MAC over a prefix); non-trivial = at least one damaged frame; distinct = plan hash";
+    s.rule = "plan = network knobs + 4..36 frames, each pristine or damaged (bit flip anywhere incl. the MAC, truncation, extension, byte swap, the MAC's own bytes rearranged so that XOR/sum folds over 8/16/32/64-bit words are preserved, another peer's key, a key one bit off, exact MAC over undecodable bytes, MAC over a prefix; the MACs the harness computes and the check of the MAC the codec appended use an independent HMAC-SHA256 written from RFC 2104/FIPS 180-4) + 1..3 direct encode_signed/decode_signed rounds with keys of 0..130 bytes (same key accepts, reference MAC accepts, keys differing in one byte anywhere / cut to 32 bytes / extended reject); non-trivial = at least one damaged frame; distinct = plan hash";
     s.gen = gen_c13; s.exec = exec_c13; s.kernel_knobs = net_knobs2;
     s.quick_runs = 3000; s.thorough_runs = 150000; s.quick_secs = 40; s.thorough_secs = 900;
     return s;
